@@ -281,12 +281,12 @@ def generate (g : Input) : Except Err St :=
     | .error e => .error e
     | .ok s2 => .ok (breakLoops g s2)
 
-/-- legality of an input (what `addJointType/addBody/addJoint` accept plus the documented precondition
-parent ≠ child): there is a Ground body, joint endpoints and types exist -/
+/-- legality of an input (what `addJointType/addBody/addJoint` accept; `addJoint` does not check the documented
+precondition parent ≠ child, so self-joints are legal here too): there is a Ground body, joint endpoints and types exist -/
 def Input.wf (g : Input) : Bool :=
   decide (0 < g.bodies.length) &&
   g.joints.all (fun j => decide (j.parent < g.bodies.length) && decide (j.child < g.bodies.length) &&
-                         decide (j.parent ≠ j.child) && decide (j.type < (allTypes g).length) && !j.addedBase) &&
+                         decide (j.type < (allTypes g).length) && !j.addedBase) &&
   g.userTypes.all (fun t => decide (t.nmob ≤ 6))
 
 end C42
